@@ -180,3 +180,71 @@ def _m11():
     bpath.commonprefix = commonprefix
     import vpx.harness.c12 as h
     h.commonprefix = commonprefix
+
+
+@mutant('simplify_ignores_ne')
+def _m12():
+    # the '>=V,<=V' collapse as it was before the fix: '!=V' ignored
+    from bfg9000 import versioning
+    from itertools import chain
+    from bfg9000.iterutils import iterate
+
+    def simplify_specifiers(spec):
+        SpecifierSet = versioning.SpecifierSet
+
+        def key(s):
+            return (s.version, 1 if s.operator in ['>=', '<'] else 2)
+
+        def in_bounds(v, lo, hi):
+            if lo and v not in lo:
+                return False
+            if hi and v not in hi:
+                return False
+            return True
+        gt = lt = eq = None
+        ne = []
+        for i in spec:
+            if i.operator == '==':
+                if eq is None:
+                    eq = i
+                elif eq != i:
+                    raise ValueError('inconsistent')
+            elif i.operator == '!=':
+                ne.append(i)
+            elif i.operator in ['>', '>=']:
+                gt = i if gt is None else max(gt, i, key=key)
+            elif i.operator in ['<', '<=']:
+                lt = i if lt is None else min(lt, i, key=key)
+            else:
+                raise ValueError('invalid')
+        ne = [i for i in ne if in_bounds(i.version, gt, lt)]
+        if eq:
+            if any(i.version in eq for i in ne) or not in_bounds(eq.version, gt, lt):
+                raise ValueError('inconsistent')
+            return SpecifierSet(str(eq))
+        if lt and gt:
+            if lt.version not in gt or gt.version not in lt:
+                raise ValueError('inconsistent')
+            if gt.version == lt.version and gt.operator == '>=' and lt.operator == '<=':
+                return SpecifierSet('=={}'.format(gt.version))
+        return SpecifierSet(','.join(str(i) for i in chain(iterate(gt), iterate(lt), ne)))
+    versioning.simplify_specifiers = simplify_specifiers
+    from bfg9000.builtins import pkg_config
+    pkg_config.simplify_specifiers = simplify_specifiers
+
+
+@mutant('simplify_max_for_lt')
+def _m13():
+    # keeps the *weakest* upper bound instead of the strongest
+    from bfg9000 import versioning
+    src = open(versioning.__file__).read()
+    src = src.replace('lt = i if lt is None else min(lt, i, key=key)',
+                      'lt = i if lt is None else max(lt, i, key=key)')
+    ns = {'__name__': 'bfg9000.versioning', '__package__': 'bfg9000'}
+    exec(compile(src, versioning.__file__, 'exec'), ns)
+    ns['SpecifierSet'] = versioning.SpecifierSet
+    f = ns['simplify_specifiers']
+    f.__globals__['SpecifierSet'] = versioning.SpecifierSet
+    versioning.simplify_specifiers = f
+    from bfg9000.builtins import pkg_config
+    pkg_config.simplify_specifiers = f
